@@ -41,6 +41,20 @@ Theorem logql_metric_correct :
 Proof. exact metric_correct. Qed.
 Print Assumptions logql_metric_correct.
 
+(* the same statement for the scripts that ARE answered from the roll-up table (range and vector aggregations over rate /
+   count_over_time): base = the lines of the streams selected by the matchers and the label filters *)
+Theorem logql_metric_correct_shortcut :
+  forall (fp : lmap -> N) (to_float : string -> Qc) (quantile_o : string -> list Qc -> Qc) (varpop stddevpop : list Qc -> Qc),
+  (forall a b, fp a = fp b -> a = b) ->
+  forall c base s fin p,
+  analyze_m15 s = true -> plan_metric s fin = Some p ->
+  (match s with SLra _ | SAgg _ => True | _ => False end) ->
+  0 < c_step_ns c -> consistent base -> nonneg base ->
+  option_map (map strip) (sem fp to_float quantile_o varpop stddevpop p c base) =
+  metric_ref to_float quantile_o varpop stddevpop s c (map entry_of base).
+Proof. exact shortcut_metric_correct. Qed.
+Print Assumptions logql_metric_correct_shortcut.
+
 (* the roll-up path: over the 15-second roll-up of any row list the shortcut select yields the rows of the LRA select
    over the rows themselves, for every range made of whole slots ... *)
 Theorem shortcut_value_correct : forall v k rows, nonneg rows -> 0 < k ->
